@@ -20,6 +20,7 @@ res={"property":"$pid","exit":$rc,"lines":lines,"detected":$rc==1,"failing_input
 json.dump(res,open('/verif/seeded/$id/recheck.json','w'),indent=1)
 print("$id ($pid): exit=$rc", "FAILING-INPUT" if with_input else ("tie-only" if $rc==1 else "MISSED"), "|", "; ".join(l.split('replay=')[-1].split('/')[-1] for l in lines if l.startswith('VIOLATION')))
 PY
+  rm -rf /verif/seeded/$id/replays; cp -r $copy/replays /verif/seeded/$id/replays 2>/dev/null
   git -C /repo worktree remove --force $wt; rm -rf $copy
 }
 export -f one
